@@ -419,6 +419,67 @@ def key_stream(tier, stats, out_probs, known_hits):
     return n
 
 
+HEADER_VALUES = {
+    # digits that str.isdigit() accepts and int() refuses, digit runs beyond CPython's 4300-digit conversion limit, signs, blanks
+    'content-length': ['\xb2', '1\xb3', '\xb9\xb2', '9' * 4301, '9' * 6000, '0' * 5000 + '2', '+5', ' 5', '5 ', '1_0', '0x10', '1e3', '', ' ', '-0',
+                       '00', '2.0', '2,2', '9223372036854775807'],
+    # (a Content-Length that does not fit a machine word makes the WSGI input stream's read() raise OverflowError - in this harness
+    #  io.BytesIO under webob, in production the WSGI server's stream: outside placement, excluded; see DESIGN 5.6)
+    'content-type': ['application/json; charset=' + 'x' * 300, 'application/json;', ';', 'application/json; charset="', 'a/b/c',
+                     'application/JSON', 'application/json , text/plain', '\xe9/\xe9', 'application/' + 'j' * 5000],
+    'accept': ['application/json;q=' + '9' * 4301, 'application/json;q=\xb2', 'application/*;q=0.0', '*/*;q=x', ',,,', 'a' * 5000, '\xb2/\xb2',
+               'application/json; version=' + '9' * 5000],
+    'openstack-api-version': ['placement 1.' + '9' * 4301, 'placement ' + '9' * 4301 + '.1', 'placement \xb2.\xb3', 'placement 1.\xb2',
+                              'placement 1.39 ', ' placement 1.39', 'placement  1.39', 'PLACEMENT 1.39', 'placement 1.039', 'placement 1.3_9',
+                              'placement +1.39', 'placement 1.39,placement 1.0', 'placement latest ', 'placement\t1.39'],
+}
+
+
+def header_stream(tier, stats, out_probs, known_hits):
+    """every method family x every header above x every odd value (the other headers regular)"""
+    n = 0
+    app = impl.App()
+    surface.setup_state(app)
+    before = core(app.raw_dump())
+    A = surface.RP_A
+    targets = [('GET', '/resource_providers', None), ('HEAD', '/resource_providers', None), ('OPTIONS', '/resource_providers', None),
+               ('GET', '/', None), ('DELETE', '/resource_providers/%s/inventories/NO_SUCH' % A, None),
+               ('PUT', '/resource_providers/%s/traits' % A, b'{"resource_provider_generation": 9999, "traits": []}'),
+               ('POST', '/resource_classes', b'{"name": "CUSTOM_HDR"}'), ('POST', '/no_such_route', b'{}')]
+    for method, path, body in targets:
+        for h, values in sorted(HEADER_VALUES.items()):
+            for val in values:
+                m = fuzz.mutate(random.Random(0), ('GET', '/', None, None))
+                m.update({'method': method, 'path': path, 'query': [], 'body': body, 'ctype': 'application/json' if body is not None else None,
+                          'what': ['header %s = %r' % (h, val[:40])]})
+                m['headers']['openstack-api-version'] = 'placement 1.39'
+                if h == 'content-type':
+                    m['ctype'] = val
+                else:
+                    m['headers'][h] = val
+                del LAST_EXC[:]
+                resp, err = fuzz.issue(app, m)
+                after = core(app.raw_dump())
+                st = resp.status_int if resp is not None else -1
+                n += 1
+                stats['evaluations'] += 1
+                stats['status'][st] += 1
+                stats['route'][method + ' ' + path.split('/')[1]] += 1
+                stats['mutation']['header-value'] += 1
+                for p in judge(m, resp, err, before, after):
+                    if p[0] == 'server-error':
+                        f = known_match(p[2], m, app)
+                        if f is not None:
+                            known_hits.append((f, 'plain', jsonable(m)))
+                            continue
+                    d = jsonable(m)
+                    d['headers'] = {k: (v if len(v) < 200 else v[:60] + '...(%d characters)' % len(v)) for k, v in d['headers'].items()}
+                    out_probs.append({'state': 'plain', 'index': -4, 'request': d, 'kind': p[0], 'text': p[1], 'status': st})
+                before = after
+    app.close()
+    return n
+
+
 def history_state(app, rng, n_ops):
     dump = ops.canon_dump(app.raw_dump())
     for _ in range(n_ops):
@@ -494,6 +555,7 @@ def run(pid, tier, out):
         app.close()
     n_boundary = boundary_stream(tier, stats, probs, known_hits)
     n_keys = key_stream(tier, stats, probs, known_hits)
+    n_hdrs = header_stream(tier, stats, probs, known_hits)
     # the known trigger itself, so that the finding is looked at on every run
     app = impl.App()
     exotic_state(app)
@@ -626,7 +688,7 @@ def run(pid, tier, out):
            'status_histogram': {str(k): v for k, v in sorted(stats['status'].items())},
            'route_histogram': dict(stats['route']), 'mutation_histogram': dict(stats['mutation']),
            'known_finding_hits': len(known_hits), 'problems': len(probs),
-           'boundary_variants_over_http': n_boundary, 'query_key_spellings_over_http': n_keys, 'parser_cases': pn_cases, 'parser_disagreements': len(pdis), 'parser_cases_by_kind': pstats.get('by_kind'),
+           'boundary_variants_over_http': n_boundary, 'query_key_spellings_over_http': n_keys, 'header_values_over_http': n_hdrs, 'parser_cases': pn_cases, 'parser_disagreements': len(pdis), 'parser_cases_by_kind': pstats.get('by_kind'),
            'parser_builtin_table_discrepancies': pstats.get('table_discrepancies'),
            'schema_documents': sn_cases, 'schema_disagreements': len(sdis), 'schema_stats': sstats,
            'decoded_bodies': dn, 'decode_disagreements': len(ddis), 'decoded_by_kind': dkinds,
